@@ -20,7 +20,8 @@ RULE = ("(a) the row sequence of valid streams (pyjelly- and reference-producer-
         "graphs/datasets (some empty, some with more rows than the default frame size) written through ONE shared stream with each "
         "grouped logical type - requested through logical_type or through an explicit GraphsFrameFlow()/DatasetsFrameFlow() object - via "
         "grouped_stream_to_frames / _to_file of both integrations: frames carrying >= 1 statement row == non-empty inputs, "
-        "in order, one each, and grouped parsing returns the input groups. Non-trivial: re-partitionings that cut between an "
+        "in order, one each, and grouped parsing returns the input groups. (d) two re-cut streams parsed side by side (two grouped "
+        "parsers advanced alternately; two flat parsers merged): each hands out what it hands out alone. Non-trivial: re-partitionings that cut between an "
         "entry row and its use or between a term and its elided repeat; group sequences with >= 2 non-empty groups sharing "
         "terms. Distinct by hash of bytes / groups.")
 ASSUMPTIONS = [
@@ -157,6 +158,86 @@ def check_grouped(ctx, integ, data, frames, ref, flat_events):
     if concat != [e for e in flat_events if e[0] == "stmt"]:
         return {"clause": "concat-differs", "summary": f"{integ}: concatenated sinks != flat parse"}
     return None
+
+
+def check_interleaved(ctx, rng):
+    """Two streams parsed side by side (zip of two grouped parsers; a merge of two flat parsers), the caller switching
+    between them at frame / item boundaries: each must hand out exactly what it hands out when parsed alone."""
+    from pyjelly.integrations.generic import parse as gparse
+    from pyjelly.integrations.rdflib import parse as rparse
+
+    datas, modes = [], []
+    for _ in range(2):
+        mode = "rdf11" if rng.random() < .6 else "generic"
+        vs = workloads.valid_stream(rng, mode=mode, delimited=True, max_len=15)
+        if vs is None:
+            return
+        rows = [r for fr in vs["frames"] for r in fr["rows"]]
+        datas.append(wire.enc_stream(recut(rng, rows), True))
+        modes.append(mode)
+    integ = "generic" if "generic" in modes or rng.random() < .5 else "rdflib"
+    canon = (lambda evs: evs) if integ == "generic" else (lambda evs: sorted(evs, key=repr))
+    try:
+        solo_g = [[canon(T.norm_events(x[0])) for x in pj.iter_grouped(integ, d)] for d in datas]
+        solo_f = [T.norm_events(pj.parse(integ, "flat", d)) for d in datas]
+    except Exception:  # noqa: BLE001
+        ctx.observe("baseline-raised (C04 decides)")
+        return
+    w = None
+    # grouped, advanced alternately
+    its = [iter(pj.iter_grouped(integ, d)) for d in datas]
+    got = [[], []]
+    alive = [True, True]
+    try:
+        while any(alive):
+            for k in (0, 1):
+                for _step in range(rng.randint(1, 2)):
+                    if alive[k]:
+                        x = next(its[k], None)
+                        if x is None:
+                            alive[k] = False
+                        else:
+                            got[k].append(canon(T.norm_events(x[0])))
+    except Exception as e:  # noqa: BLE001
+        w = {"clause": "interleaved-grouped-raised", "summary": f"{integ}: {type(e).__name__}: {e}"}
+    if w is None:
+        for k in (0, 1):
+            if got[k] != solo_g[k]:
+                j = next((i for i, (a, b) in enumerate(zip(got[k], solo_g[k])) if a != b), min(len(got[k]), len(solo_g[k])))
+                w = {"clause": "interleaved-grouped-differs",
+                     "summary": f"{integ}: stream {k} parsed next to another stream hands out a different graph/dataset #{j} "
+                                f"than when parsed alone"}
+                break
+    ctx.observe("interleaved-grouped-parses")
+    if w is None:
+        mod = gparse if integ == "generic" else rparse
+        conv = T.event_from_generic if integ == "generic" else T.event_from_rdflib
+        its = [iter(mod.parse_jelly_flat(io.BytesIO(d))) for d in datas]
+        got = [[], []]
+        alive = [True, True]
+        try:
+            while any(alive):
+                for k in (0, 1):
+                    for _step in range(rng.randint(1, 4)):
+                        if alive[k]:
+                            x = next(its[k], None)
+                            if x is None:
+                                alive[k] = False
+                            else:
+                                got[k].append(T.norm_event(conv(x)))
+        except Exception as e:  # noqa: BLE001
+            w = {"clause": "interleaved-flat-raised", "summary": f"{integ}: {type(e).__name__}: {e}"}
+        if w is None:
+            for k in (0, 1):
+                if got[k] != solo_f[k]:
+                    w = {"clause": "interleaved-flat-differs", "summary": f"{integ}: stream {k} merged with another flat parse yields other items than alone"}
+                    break
+        ctx.observe("interleaved-flat-parses")
+    if w:
+        w.update({"kind": "interleaved", "integration": integ, "streams": [d.hex() for d in datas]})
+        ctx.violation(w)
+    ctx.case(("interleaved", integ, gen.case_hash(datas[0]), gen.case_hash(datas[1])), all(len(x) >= 2 for x in solo_g),
+             sample={"part": "interleaved-parsers", "integration": integ, "frames": [len(x) for x in solo_g]})
 
 
 # ------------------------------------------------------------------ (c)
@@ -365,6 +446,9 @@ def run_shard(ctx):
         if i % 3 == 0:
             check_group_writing(ctx, rng)
             continue
+        if i % 7 == 1:
+            check_interleaved(ctx, rng)
+            continue
         mode = "rdf11" if rng.random() < .5 else "generic"
         vs = workloads.valid_stream(rng, mode=mode, delimited=True, max_len=25)
         if vs is None:
@@ -373,6 +457,8 @@ def run_shard(ctx):
 
 
 def replay(w: dict):
+    if w.get("kind") == "interleaved":
+        return {"clause": w["clause"], "summary": "interleaved-parser witnesses are reproduced by re-running ./check C07 with the same VERIF_SEED"}
     if "datasets" in w:
         return {"clause": w["clause"], "summary": "dataset-as-graphs witnesses are reproduced by re-running ./check C07 with the same VERIF_SEED"}
     if "groups" in w:
